@@ -439,6 +439,7 @@ PROPS["C04"] = {
         {"reads": 0.7, "echo": 1.0, "pC": 0.1, "pX": 0.1, "maxdepth": 3, "declare": 0.2, "wlet": 0.3},
         {"reads": 0.9, "echo": 1.0, "maxdepth": 3, "shadow_out": 0.7, "wlet": 0.4, "scope_names": 0.8, "dead_names": 0.4, "drop_read": 0.3},
         {"reads": 0.8, "echo": 1.0, "maxdepth": 2, "shadow_out": 0.6, "wlet": 0.3, "declare": 1.0, "pZX": 0.25, "pZXread": 0.0, "cont": 1.0, "wrow": 0.5},
+        {"reads": 0.95, "echo": 1.0, "maxdepth": 2, "random": 0.4, "wrow": 0.35, "wlet": 0.2, "budget": 16},
     ]),
     "tags": RUN_TAGS + ("READS",),
     "nontrivial": nontrivial_rows(2),
@@ -745,6 +746,15 @@ def c11_cases(seed, tier):
         elif x < 0.58:
             rng.shuffle(sigs)
             c["c11"] = "reordered"
+        if rng.random() < 0.12:
+            bid = [s_ for s_ in sigs if s_["typ"] == "B"]
+            if bid:
+                b = rng.choice(bid)
+                sigs.insert(rng.randrange(len(sigs) + 1), {"name": b["name"] + "_out", "typ": rng.choice(["I", "O", "B"]), "bits": b["bits"], "default": "0"})
+                c["c11"] += " + a signal literally named <bidirectional>_out"
+        if rng.random() < 0.15 and len(sigs) > 1:
+            del sigs[rng.randrange(len(sigs))]
+            c["c11"] += " + signal removed"
         c["sigs"] = sigs
         # the layout indices refer to the signal list: rebuild a layout over the output-capable signals
         outs = [i for i, s in enumerate(sigs) if s["typ"] in ("O", "B")]
@@ -1474,11 +1484,56 @@ def strict_oracle(case, trace):
         yield "declare V = P %s R with P=%s R=%s: value %s, expected %d" % (op, x, y, got, want)
 
 
+def c14_extra(seed, tier):
+    base = add_faults(run_family("c14f", 150 if tier == "quick" else 6000, 0, [
+        {"declare": 1.0, "reads": 0.7, "shadow_out": 0.8, "pZX": 0.05, "maxdepth": 2, "wlet": 0.4, "echo": 1.0, "wrow": 0.5}]),
+        ["drop", "add", "dup", "err"], 1.0, cont=1.0)(seed, "quick")
+    # a driver that answers for EVERY non-input signal of TestCase::signals, the appended virtual signals included
+    rng = random.Random(seed ^ 0xC14)
+    more = run_family("c14v", 100 if tier == "quick" else 4000, 0, [
+        {"declare": 1.0, "reads": 0.6, "maxdepth": 2, "wrow": 0.5, "pZX": 0.1, "full_layout": True}])(seed, "quick")
+    for c in more:
+        nvirt = c["src"].count("declare")
+        n0 = len(c["sigs"])
+        extra = list(range(n0, n0 + nvirt))
+        c["layout"] = c["layout"] + extra
+        rng.shuffle(c["layout"])
+        c["table"] = [[rng.choice(["X", "X", "0", "7", "Z"]) if i >= n0 else str(rng.randrange(0, 4)) for i in c["layout"]] for _ in range(3)]
+    return base + more
+
+
 _c14_base = PROPS["C14"]["cases"]
-PROPS["C14"]["cases"] = lambda seed, tier: _c14_base(seed, tier) + strict_cases("c14")
+PROPS["C14"]["cases"] = lambda seed, tier: _c14_base(seed, tier) + strict_cases("c14") + c14_extra(seed, tier)
 PROPS["C14"]["oracles"] = PROPS["C14"]["oracles"] + [strict_oracle]
+def unary_cases():
+    sigs = [{"name": "A", "typ": "I", "bits": 1, "default": "0"}, {"name": "Q", "typ": "O", "bits": 8, "default": "-"}]
+    vals = [0, 1, 2, 5, -1, -5, 255, 2 ** 63 - 1, MIN64, MIN64 + 1, 0x5555555555555555]
+    rows = []
+    for u1 in gen.UNOPS:
+        for u2 in [""] + gen.UNOPS:
+            for u3 in ["", "!", "-"]:
+                for v in vals:
+                    for paren in (False, True):
+                        if paren and not u2:
+                            continue
+                        e = ("num", v)
+                        txt = "x"
+                        for u in (u3, u2, u1):
+                            if u:
+                                e = ("un", u, e)
+                                txt = (u + "(" + txt + ")") if paren else (u + txt)
+                        rows.append(("let x = %s;" % (str(v) if v >= 0 else lit64(v)[1:-1]), "0 (%s)" % txt, py_eval(e, {})))
+    cases = []
+    for ci in range(0, len(rows), 120):
+        part = rows[ci:ci + 120]
+        src = "\n".join(["A V", "declare V = Q;"] + [l for a, b, _ in part for l in (a, b)]) + "\n"
+        cases.append({"id": "c08-unary-%d" % ci, "kind": "run", "src": src, "sigs": sigs, "layout": [1], "table": [["1"]], "echo": 0,
+                      "wdefault": 0, "faults": [], "max": 100000, "seed": 1, "c08": [x for _, _, x in part]})
+    return cases
+
+
 _c08_base = PROPS["C08"]["cases"]
-PROPS["C08"]["cases"] = lambda seed, tier: _c08_base(seed, tier) + strict_cases("c08")
+PROPS["C08"]["cases"] = lambda seed, tier: _c08_base(seed, tier) + strict_cases("c08") + unary_cases()
 PROPS["C08"]["oracles"] = PROPS["C08"]["oracles"] + [strict_oracle]
 
 
@@ -1507,6 +1562,16 @@ def replay_cases(seed, tier):
                     lines.append("(ite(1, random(%d), random(7))) X%s" % (b, " X" if use_decl else ""))
             if sgm < nseg - 1:
                 lines.append("resetRandom;")
+        if rng.random() < 0.35:
+            # the reset sits first in a loop / while body: every pass replays the stream
+            b = rng.choice(bounds)
+            hdrline = lines[0]
+            decl = lines[1:2] if use_decl else []
+            pad = " X" if use_decl else ""
+            kind = rng.choice(["loop", "while"])
+            open_ = ["loop(k,%d)" % rng.randrange(2, 4)] if kind == "loop" else ["let w = 0;", "while(w < 2)"]
+            body = ["resetRandom;", "(random(%d)) X%s" % (b, pad), "let t = random(%d);" % b] + (["let w = w + 1;"] if kind == "while" else [])
+            lines = [hdrline] + decl + ["(random(%d)) X%s" % (b, pad)] + open_ + body + ["end " + kind, "(random(%d)) X%s" % (b, pad)]
         cases.append({"id": "c17-replay-%d" % i, "kind": "run", "src": "\n".join(lines) + "\n", "sigs": sigs, "layout": [1], "table": [["1"], ["2"]],
                       "echo": 0, "wdefault": 0, "faults": [], "max": 1000, "seed": rng.randrange(0, 2 ** 32)})
     return cases
